@@ -762,6 +762,10 @@ impl ExecutionState {
     pub fn should_stop() -> bool {
         std::thread::panicking()
             || Self::with(|s| {
+                // The execution is over and its remaining (detached, unfinished) tasks are being dropped
+                if s.in_cleanup {
+                    return true;
+                }
                 assert_ne!(s.current_task, ScheduledTask::Finished);
                 s.current_task == ScheduledTask::Stopped
             })
